@@ -23,8 +23,8 @@ Arguments GetKey_unpack_response : simpl never.
 Arguments slice : simpl never.
 
 Section Frame.
-Context (wrap : wrap_fn) (unwrap : unwrap_fn) (pfuel : nat) (sch : list Z).
-Notation W := (WC wrap unwrap pfuel sch).
+Context (wrap : wrap_fn) (unwrap : unwrap_fn) (sch : list Z).
+Notation W := (WC wrap unwrap sch).
 
 Lemma lor_first_last fl : Z.lor (Z.lor fl c_PFC_FIRST_FRAG) c_PFC_LAST_FRAG = Z.lor fl c_PFC_FIRST_LAST.
 Proof. rewrite <- Z.lor_assoc. reflexivity. Qed.
